@@ -225,8 +225,9 @@ class CoherentMonitor:
         if amb:
             ctx.count("ambiguous[integer_edge_delay]")
             return
-        b, e, _ = slice(start, stop).indices(N)
-        want_len = max(0, e - b)
+        b, e = oracles.kept_range(start, stop, N)
+        want_len = e - b
+        feats = dict(feats, beyond_length=bool(stop < 0))
         if len(out) != want_len:
             ctx.violation(o, f"returned {len(out)} samples; band-edge delays {float(delays[0]):.3f}/{float(delays[1]):.3f} samples give "
                              f"[{start}:{stop}] of {N} = {want_len} samples", {"dm": float(dmv)}, dict(feats, what="crop_len"))
